@@ -39,6 +39,11 @@ def cases(seed, tier):
         for k in PRODUCER_KINDS:
             out.append({"gen": "history", "seed": rng.randrange(2 ** 31), "steps": 9, "force_kind": k,
                         "force_steps": ["copy", "copy", "copy", "merge", "translate", "normalize", "rotate", "scale", "copy"]})
+            if rep % 2 == 1:
+                # the transforms applied to a mesh that is already where they would put it (repeated normalisation: the translation part is
+                # exactly zero), a null translation, and the default axis of flatten
+                out.append({"gen": "history", "seed": rng.randrange(2 ** 31), "steps": 8, "force_kind": k,
+                            "force_steps": ["normalize", "normalize", "fit", "fit", "translate_zero", "flatten_default", "normalize", "copy"]})
     return out
 
 
@@ -341,7 +346,7 @@ def run_case(desc, ctx):
         _compare_pool(ctx, pool, shadows, None, "initial", None)
         for step in range(desc["steps"]):
             kind = rng.choice(["copy", "merge", "translate", "translate", "rotate", "scale", "scale_xyz", "normalize", "fit", "to_origin", "flatten",
-                               "edit_component", "edit_iadd", "edit_connectivity", "inverse_translate", "inverse_rotate", "inverse_scale"])
+                               "flatten_default", "translate_zero", "edit_component", "edit_iadd", "edit_connectivity", "inverse_translate", "inverse_rotate", "inverse_scale"])
             if desc.get("force_steps"):
                 kind = desc["force_steps"][step % len(desc["force_steps"])]
             j = rng.randrange(len(pool)) if not desc.get("force_steps") else 0
@@ -591,6 +596,36 @@ def run_case(desc, ctx):
                 ctx.call("translate_to_origin", T.translate_to_origin, m, monitor="transform")
                 _check_operated(ctx, m, sh, sh.V - sh.V.mean(axis=0), "translate_to_origin", 1e-12)
                 _compare_pool(ctx, pool, shadows, kind, kind, j)
+            elif kind == "translate_zero":
+                targ = rng.choice([lambda: M.Vec(0., 0., 0.), lambda: np.zeros(3), lambda: M.Vec(0, 0, 0)])()
+                ctx.call("translate", T.translate, m, targ, monitor="transform")
+                _check_operated(ctx, m, sh, sh.V.copy(), "translate", 0.0)
+                _compare_pool(ctx, pool, shadows, "translate", "translate", j)
+            elif kind == "flatten_default":
+                # the documented default: the axis with the smallest variance.  Half of the time one vertex is first moved far out along that axis
+                # (a direct edit), so that it is no longer the axis of smallest extent
+                var = sh.V.var(axis=0)
+                a = int(np.argmin(var))
+                if rng.random() < 0.5 and len(sh.V) >= 12:
+                    i = rng.randrange(len(sh.V))
+                    x = float(sh.V[:, a].mean() + 1.5 * (sh.V.max(axis=0) - sh.V.min(axis=0)).max())
+                    ctx.call("edit_component", lambda: m.vertices[i].__setitem__(a, x), monitor="transform")
+                    want = sh.V.copy()
+                    want[i, a] = x
+                    _check_operated(ctx, m, sh, want, "edit_component", 0.0)
+                    ctx.cls("flatten_default:after_outlier_edit")
+                    var = sh.V.var(axis=0)
+                a = int(np.argmin(var))
+                rest = sorted(var)[1]
+                if not (var[a] * 1.001 + 1e-12 * float(np.abs(sh.V).max()) ** 2 < rest):
+                    ctx.note("flatten_default_skipped_two_axes_of_nearly_equal_variance")
+                    continue
+                ctx.cls("flatten_default:smallest_variance_is_%s" % ("also_smallest_extent" if a == int(np.argmin(sh.V.max(axis=0) - sh.V.min(axis=0))) else "not_smallest_extent"))
+                ctx.call("flatten", T.flatten, m, monitor="transform")
+                want = sh.V.copy()
+                want[:, a] = 0.0
+                _check_operated(ctx, m, sh, want, "flatten", 0.0)
+                _compare_pool(ctx, pool, shadows, "flatten", "flatten", j)
             elif kind == "flatten":
                 d = rng.randrange(3)
                 ctx.call("flatten", T.flatten, m, d, monitor="transform")
